@@ -166,6 +166,10 @@ def execute(cfg, V):
     A = V.val('A', 'r'); phi = V.val('phi', 'ang'); off = V.val('off', 'rany'); T = V.val('T', 'pos')
     cls = pf.periodic_function(w)
     obs = [Ob('lookup by type name', 0 if cls.wavetype == w else 1)]
+    # a sibling waveform with the same amplitude and phase but another offset is evaluated first: results must not depend on it
+    off2 = V.val('off_sibling', 'rany')
+    sib = pf.fourier_series(cls(period=T, amplitude=A, phase=phi, offset=off2))
+    for k_ in (0, 1, n): sib.amplitude(F(k_) if V.sym else k_); sib.phase(F(k_) if V.sym else k_)
     f = cls(period=T, amplitude=A, phase=phi, offset=off)
     fs = pf.fourier_series(f)
     nn = F(n) if V.sym else n
